@@ -661,4 +661,209 @@ theorem registrationCheck_keeps (E : Env) (fs : FS) (http : Option Bool) (r : Op
   · rename_i hd; exact absurd hd (ofCanon_ne_done c)
   · exact hr
 
+/-- `write_unregistered_file(); write_to_disk(machine_id_file, delete=True)`: the identifier file is touched only
+    after the unregistration record is completely in place -/
+theorem unregisterAndDrop_id_last (E : Env) (fs : FS)
+    (h : (unregisterAndDrop E fs).1.node .id ≠ fs.node .id) :
+    (writeState E .reg .unreg timeStamp fs).2 = .done ∧ Excl E (unregisterAndDrop E fs).1 ∧
+      look E (unregisterAndDrop E fs).1 .id = .absent ∧ (unregisterAndDrop E fs).2 = .done := by
+  have fr := (writeState_frame E .reg .unreg timeStamp fs (by intro d; simp) (by intro d; simp)).2
+  unfold unregisterAndDrop at h ⊢
+  simp only at h ⊢
+  split
+  · rename_i hdone
+    rw [if_pos hdone] at h
+    refine ⟨hdone, (unregister_done_excl E _ fs hdone).of_shrinks (wtdDelete_shrinks E _ .id), ?_⟩
+    cases hok : (wtdDelete E (writeState E .reg .unreg timeStamp fs).1 .id).2 with
+    | true => exact ⟨wtdDelete_ok E _ .id hok, by simp [ofOk]⟩
+    | false =>
+      exfalso; apply h
+      rw [← fr]
+      revert hok
+      unfold wtdDelete
+      split
+      · simp
+      · split
+        · simp
+        · simp
+        · split <;> simp
+  · rename_i hnd
+    rw [if_neg hnd] at h
+    exact absurd fr h
+
+/-- a denied unlink of the identifier file: the unregistration reports the error and the identifier survives -/
+theorem unregisterAndDrop_denied_id (E : Env) (fs : FS) (hden : E.denied .id = true) :
+    (unregisterAndDrop E fs).1.node .id = fs.node .id ∧
+      (look E fs .id ≠ .absent → (unregisterAndDrop E fs).2 = .oserror) := by
+  have fr := (writeState_frame E .reg .unreg timeStamp fs (by intro d; simp) (by intro d; simp)).2
+  have key : ∀ s : FS, s.node .id = fs.node .id →
+      (wtdDelete E s .id).1.node .id = fs.node .id ∧ (look E fs .id ≠ .absent → (wtdDelete E s .id).2 = false) := by
+    intro s hs
+    cases hh : E.has false with
+    | false => simp [wtdDelete, look, Loc.dir, hh, hs]
+    | true =>
+      cases hn : fs.node .id with
+      | absent => simp [wtdDelete, look, Loc.dir, hh, hs, hn]
+      | dir => simp [wtdDelete, look, Loc.dir, hh, hs, hn]
+      | file c => simp [wtdDelete, look, Loc.dir, hh, hs, hn, hden]
+      | link k => simp [wtdDelete, look, Loc.dir, hh, hs, hn, hden]
+  unfold unregisterAndDrop
+  simp only
+  split
+  · obtain ⟨a, b⟩ := key _ fr
+    exact ⟨a, fun hl => by rw [b hl]; rfl⟩
+  · rename_i hnd
+    refine ⟨fr, fun _ => ?_⟩
+    rcases writeState_res E .reg .unreg timeStamp fs with ⟨hd, _, _⟩ | ⟨he, _⟩
+    · exact absurd hd hnd
+    · exact he
+
+/-! ### the legacy registration flow -/
+
+theorem legacySync_excl (E : Env) (fs : FS) (a : Api) (h : Excl E fs) : Excl E (legacySync E fs a).1 := by
+  cases a with
+  | registered => exact register_excl E _ fs h
+  | unreachable => exact h
+  | notYet => exact unregisterAndDrop_excl E fs h
+  | unregAt d => exact unregisterAndDrop_excl E fs h
+
+theorem legacySync_not_id (E : Env) (fs : FS) (a : Api) (x : Str) : (legacySync E fs a).2 ≠ .id x := by
+  cases a with
+  | registered => exact writeState_not_id E _ _ _ fs x
+  | unreachable => simp [legacySync]
+  | notYet => exact unregisterAndDrop_not_id E fs x
+  | unregAt d => exact unregisterAndDrop_not_id E fs x
+
+theorem legacySync_keeps (E : Env) (fs : FS) (a : Api) (c : Str) (ha : a = .registered ∨ a = .unreachable)
+    (hr : readsAs E fs = some c) : readsAs E (legacySync E fs a).1 = some c := by
+  rcases ha with rfl | rfl
+  · have fr := writeState_frame E .unreg .reg timeStamp fs (by intro d; simp) (by intro d; simp)
+    simp only [legacySync]
+    rw [readsAs_congr E fs _ fr.1 fr.2]; exact hr
+  · exact hr
+
+theorem legacyRegistrationCheck_excl (E : Env) (fs : FS) (a : Api) (r : Option Str) (f : Str) (h : Excl E fs) :
+    Excl E (legacyRegistrationCheck E fs a r f).1 := by
+  have hg : Excl E (fetch E fs r f).1 := h.of_markers_same (fun l hl => fetch_node_ne E fs r f l hl)
+  unfold legacyRegistrationCheck
+  simp only
+  split
+  · exact legacySync_excl E _ _ hg
+  · exact legacySync_excl E _ _ hg
+  · exact hg
+
+theorem legacyRegistrationCheck_not_id (E : Env) (fs : FS) (a : Api) (r : Option Str) (f x : Str) :
+    (legacyRegistrationCheck E fs a r f).2 ≠ .id x := by
+  unfold legacyRegistrationCheck
+  simp only
+  split
+  · exact legacySync_not_id E _ _ x
+  · exact legacySync_not_id E _ _ x
+  · rename_i hne _
+    intro hx
+    exact hne x hx
+
+/-- a legacy registration check told "registered" or left without an answer leaves a non-empty identifier file alone -/
+theorem legacyRegistrationCheck_keeps (E : Env) (fs : FS) (a : Api) (r : Option Str) (f c : Str)
+    (ha : a = .registered ∨ a = .unreachable) (hr : readsAs E fs = some c) (hc : c ≠ []) :
+    readsAs E (legacyRegistrationCheck E fs a r f).1 = some c := by
+  unfold legacyRegistrationCheck
+  simp only [fetch_reuse E fs r f c hr hc]
+  split
+  · exact legacySync_keeps E fs a c ha hr
+  · rename_i hd; exact absurd hd (ofCanon_ne_done c)
+  · exact hr
+
+theorem legacyHandleRegistration_excl (E : Env) (fs : FS) (a : Api) (reg : Bool) (r : Option Str) (f f2 : Str)
+    (h : Excl E fs) : Excl E (legacyHandleRegistration E fs a reg r f f2).1 := by
+  have hc := legacyRegistrationCheck_excl E fs a r f h
+  have gen : ∀ s {f'}, Excl E s → Excl E (genId E s false r f').1 :=
+    fun s f' hs => hs.of_markers_same (fun l hl => genId_node_ne E s false r f' l hl)
+  unfold legacyHandleRegistration
+  simp only
+  split
+  · split
+    · exact hc
+    · split
+      · split
+        · exact gen _ hc
+        · split
+          · exact register_excl E _ _ (gen _ hc)
+          · split
+            · split
+              · exact register_excl E _ _ (gen _ (gen _ hc))
+              · exact gen _ (gen _ hc)
+            · exact unregister_excl E _ _ (gen _ hc)
+      · exact gen _ hc
+  · exact hc
+
+theorem legacyHandleRegistration_not_id (E : Env) (fs : FS) (a : Api) (reg : Bool) (r : Option Str) (f f2 x : Str) :
+    (legacyHandleRegistration E fs a reg r f f2).2 ≠ .id x := by
+  unfold legacyHandleRegistration
+  simp only
+  split
+  · split
+    · simp
+    · split
+      · split
+        · simp
+        · split
+          · exact writeState_not_id E _ _ _ _ x
+          · split
+            · split
+              · exact writeState_not_id E _ _ _ _ x
+              · rename_i hne; intro hx; exact hne x hx
+            · exact writeState_not_id E _ _ _ _ x
+      · rename_i hne; intro hx; exact hne x hx
+  · exact legacyRegistrationCheck_not_id E fs a r f x
+
+theorem legacyHandleUnregistration_excl (E : Env) (fs : FS) (a : Api) (force ok : Bool) (r : Option Str) (f f2 : Str)
+    (h : Excl E fs) : Excl E (legacyHandleUnregistration E fs a force ok r f f2).1 := by
+  have hc := legacyRegistrationCheck_excl E fs a r f h
+  have gen : ∀ s {f'}, Excl E s → Excl E (genId E s false r f').1 :=
+    fun s f' hs => hs.of_markers_same (fun l hl => genId_node_ne E s false r f' l hl)
+  unfold legacyHandleUnregistration
+  simp only
+  repeat' split
+  all_goals first | exact hc | exact gen _ hc | exact unregisterAndDrop_excl E _ hc | exact unregisterAndDrop_excl E _ (gen _ hc)
+
+theorem legacyHandleUnregistration_not_id (E : Env) (fs : FS) (a : Api) (force ok : Bool) (r : Option Str) (f f2 x : Str) :
+    (legacyHandleUnregistration E fs a force ok r f f2).2 ≠ .id x := by
+  unfold legacyHandleUnregistration
+  simp only
+  generalize (if readsAs E fs = some [] then f2 else f) = fg
+  repeat' split
+  all_goals first
+    | exact unregisterAndDrop_not_id E _ x
+    | exact legacyRegistrationCheck_not_id E fs a r f x
+    | (rename_i hne; intro hx; exact hne x hx)
+    | simp
+
+/-- the legacy registration told "registered", or left without an answer, leaves a non-empty identifier file alone -/
+theorem legacyHandleRegistration_keeps (E : Env) (fs : FS) (a : Api) (reg : Bool) (r : Option Str) (f f2 c : Str)
+    (ha : a = .registered ∨ a = .unreachable) (hr : readsAs E fs = some c) (hc : c ≠ []) :
+    readsAs E (legacyHandleRegistration E fs a reg r f f2).1 = some c := by
+  have hfg : (if readsAs E fs = some [] then f2 else f) = f := by simp [hr, hc]
+  have hk := legacyRegistrationCheck_keeps E fs a r f c ha hr hc
+  have hf : idIsFile E fs = true := by simp [idIsFile, hr]
+  have hf' : idIsFile E (legacyRegistrationCheck E fs a r f).1 = true := by simp [idIsFile, hk]
+  unfold legacyHandleRegistration
+  simp only [hfg, effApi, hf, if_true, hf', Bool.true_and, genId_reuse E _ r f c hk hc]
+  split
+  · split
+    · exact hk
+    · split
+      · split
+        · exact hk
+        · split
+          · have fr := writeState_frame E .unreg .reg timeStamp (legacyRegistrationCheck E fs a r f).1
+              (by intro d; simp) (by intro d; simp)
+            rw [readsAs_congr E _ _ fr.1 fr.2]; exact hk
+          · rename_i h1 h2 h3
+            rcases ha with rfl | rfl
+            · exact absurd rfl h3
+            · exact absurd rfl h2
+      · exact hk
+  · exact hk
+
 end IV.ClientState
